@@ -33,6 +33,7 @@ import (
 	"github.com/elnosh/gonuts/cashu"
 	"github.com/elnosh/gonuts/cashu/nuts/nut04"
 	"github.com/elnosh/gonuts/cashu/nuts/nut05"
+	"github.com/elnosh/gonuts/mint/storage"
 	"github.com/elnosh/gonuts/cashu/nuts/nut07"
 	"github.com/elnosh/gonuts/crypto"
 	"github.com/elnosh/gonuts/mint/lightning"
@@ -786,5 +787,53 @@ func TestVerifReplay_PollOverwritesIssued(t *testing.T) {
 	o2 := vOutputs(t, m, []uint64{4, 2})
 	if _, err2 := m.MintTokens(nut04.PostMintBolt11Request{Quote: q.Id, Outputs: o2.bms}); err2 == nil {
 		t.Fatalf("CONFIRMED: the poll wrote PAID over ISSUED; the quote of 6 sat was minted a second time")
+	}
+}
+
+// C03 under interleaving, invoice watcher: the watcher re-reads the quote
+// (UNPAID) and then writes PAID; a mint request that runs in between issues the
+// quote, the watcher's write reopens it.
+func TestVerifReplay_WatcherWritesAfterIssue(t *testing.T) {
+	ln := &vLN{FakeBackend: &lightning.FakeBackend{}, subGate: make(chan struct{}), unsettled: true}
+	m := vNewMint(t, 0, ln)
+	real := m.db
+	db := &vDB{MintDB: real, fail: map[int]bool{}}
+	var q storage.MintQuote
+	var err1 error
+	ran := false
+	done := make(chan struct{})
+	db.onCall = func(n int, name string) {
+		if name == "UpdateMintQuoteState" && !ran {
+			ran = true
+			// the other request, between the watcher's re-read and its write
+			ln.unsettled = false
+			m.db = real
+			o := vOutputs(t, m, []uint64{8})
+			_, err1 = m.MintTokens(nut04.PostMintBolt11Request{Quote: q.Id, Outputs: o.bms})
+			m.db = db
+			close(done)
+		}
+	}
+	m.db = db
+	var err error
+	q, err = m.RequestMintQuote(nut04.PostMintQuoteBolt11Request{Amount: 8, Unit: "sat"})
+	if err != nil {
+		t.Fatal(err)
+	}
+	close(ln.subGate) // the watcher is told that the invoice is settled
+	select {
+	case <-done:
+	case <-time.After(3 * time.Second):
+		m.db = real
+		t.Skip("the watcher did not reach its state write")
+	}
+	time.Sleep(300 * time.Millisecond)
+	m.db = real
+	if err1 != nil {
+		t.Skipf("interleaved mint request failed: %v", err1)
+	}
+	o2 := vOutputs(t, m, []uint64{8})
+	if _, err := m.MintTokens(nut04.PostMintBolt11Request{Quote: q.Id, Outputs: o2.bms}); err == nil {
+		t.Fatalf("CONFIRMED: a mint request ran between the watcher's re-read and its write; the watcher wrote PAID over ISSUED and the quote of 8 sat was minted a second time")
 	}
 }
